@@ -7,7 +7,9 @@ is tied to /repo by replaying the real matcher's recorded per-line answers throu
 the three real entry points are additionally compared with each other on the same programs."""
 import gen
 import runloop
-from common import pmap
+from common import known_open, pmap
+
+SIG_D22 = "collect-unmatched-limit-raises"
 
 
 def obs_key(o):
@@ -21,7 +23,7 @@ def run(ctx):
     for i in range(nprog):
         rows = gen.gen_rows(rng)
         fname = f"c07_{i}.csv"
-        pr = gen.gen_prog(rng, fname, control=True, errors=(rng.random() < 0.2))
+        pr = gen.gen_prog(rng, fname, control=True, errors=(rng.random() < 0.2), collects=True)
         progs.append((pr, rows, fname))
     jobs = []
     for pr, rows, fname in progs:
@@ -73,6 +75,19 @@ def run(ctx):
     pairs = [(j, o) for j, o in zip(jobs, res) if not o["exc"]] + [(j, o) for (_, j), o in zip(nexts_jobs, nres) if not o["exc"] and j["method"] == 3]
     bad_f, bad_t, skipped = runloop.coq_compare(ctx, "c07", pairs)
     corr_bad = bad_f if len(bad_f) <= len(bad_t) else bad_t
+    # open finding D22: only collect() trims *unmatched* lines to the collect() function's headers, so it alone raises on an
+    # unmatched record that lacks one of them
+    def is_d22(f):
+        return (f["kind"] == "exception in one entry point only" and f.get("next") is None and f.get("fast_forward") is None
+                and str(f.get("collect", "")).startswith("InputException") and "unknown header name" in f["collect"]
+                and "unmatched-mode: keep" in f["csvpath"] and "collect(" in f["csvpath"])
+    d22 = [f for f in fails if is_d22(f)]
+    if d22:
+        fails = [f for f in fails if not is_d22(f)]
+        if known_open(ctx.pid, SIG_D22):
+            ctx.known(f"{SIG_D22}: collect() raises on an unmatched short record under unmatched-mode: keep + collect(...), next()/fast_forward() do not — e.g. {d22[0]['csvpath']} ({len(d22)} cases this run)")
+        else:
+            ctx.violation("collect-unmatched", {"what": "collect() raises InputException on an unmatched record that lacks a header named by the collect() function; next() and fast_forward() complete", "case": d22[0], "cases": len(d22)})
     if fails:
         ctx.violation("entrypoints", {"what": fails[0]["kind"], "case": fails[0], "more": fails[1:5]})
     elif corr_bad:
